@@ -136,6 +136,14 @@ type VC struct {
 	structs map[string]*StructInfo
 	strLits map[string]Term
 	defs    map[string]Term
+	pureApps []PureApp
+}
+
+type PureApp struct {
+	Key   string
+	Const Term
+	Recv  *Term
+	Args  []Term
 }
 
 type StructInfo struct {
